@@ -242,7 +242,7 @@ def check(cls, case, rec):
 def job_strategy(kind, tier):
     return st.fixed_dictionaries({"n": st.lists(st.integers(2, 3), min_size=3, max_size=3),
                                   "steps": st.lists(st_ramp(), min_size=1, max_size=3), "fail": st.one_of(st.none(), st.integers(0, 8)),
-                                  "mu": fl(0.5, 2), "items": st.booleans()})
+                                  "mu": fl(0.5, 2), "items": st.booleans(), "x0": st.booleans()})
 
 
 def job_check(kind, case, rec):
@@ -251,12 +251,17 @@ def job_check(kind, case, rec):
     region = fem.RegionHexahedron(mesh)
     fc = fem.FieldContainer([fem.Field(region, dim=3)])
     body = fem.SolidBody(fem.NeoHooke(mu=case["mu"], bulk=5.0), fc)
-    bounds, lc = fem.dof.uniaxial(fc, clamped=True, move=0.0)
+    x0 = None
+    if case["x0"]:
+        # a separate global field container (multi-body workflow): boundaries live on the global field, the job must
+        # advance it after every substep
+        x0 = fem.FieldContainer([fem.Field(region, dim=3)])
+    bounds, lc = fem.dof.uniaxial(x0 if x0 is not None else fc, clamped=True, move=0.0)
     flat = []
     steps = []
     k = 0
     for ramp in case["steps"]:
-        vals = list(ramp)
+        vals = [0.5 * v for v in ramp]  # moderate increments: every substep converges unless a failure is injected
         for j in range(len(vals)):
             if case["fail"] is not None and k == case["fail"]:
                 vals[j] = float("nan")
@@ -266,15 +271,18 @@ def job_check(kind, case, rec):
     seen = []
 
     def cb(stepnumber, substepnumber, substep, **kw):
-        seen.append((stepnumber, substepnumber, float(substep.x[0].values[bounds["move"].points[0], 0])))
+        seen.append((stepnumber, substepnumber, float(substep.x[0].values[bounds["move"].points[0], 0]), int(substep.iterations), float(substep.xnorms[0])))
 
     if kind == "curve":
         job = fem.CharacteristicCurve(steps=steps, boundary=bounds["move"], callback=cb, items=[body] if case["items"] else None)
     else:
         job = fem.Job(steps=steps, callback=cb)
     raised = False
+    ekw = {}
+    if x0 is not None:
+        ekw["x0"] = x0
     try:
-        job.evaluate(tol=1e-9)
+        job.evaluate(tol=1e-9, **ekw)
     except ValueError:
         raised = True
     expect = []
@@ -288,10 +296,24 @@ def job_check(kind, case, rec):
         if stop:
             break
     rec.nontrivial = len(expect) >= 2
+    if raised and not stop:
+        # a generated increment may legitimately fail to converge: the callbacks seen so far must be a prefix
+        rec.label("natural-failure")
+        rec.require("callback-prefix", [(s_[0], s_[1]) for s_ in seen] == [(a, b) for a, b, _ in expect][: len(seen)])
+        return
     rec.require("raises-iff-failure", raised == stop)
-    rec.require("callback-sequence", [(a, b) for a, b, _ in seen] == [(a, b) for a, b, _ in expect], {"seen": len(seen), "expected": len(expect)})
+    rec.require("callback-sequence", [(s_[0], s_[1]) for s_ in seen] == [(a, b) for a, b, _ in expect], {"seen": len(seen), "expected": len(expect)})
     if len(seen) == len(expect) and seen:
-        rec.close("callback-sees-ramp-values", max(abs(s[2] - e[2]) for s, e in zip(seen, expect)), 1e-15)
+        rec.close("callback-sees-ramp-values", max(abs(s_[2] - e[2]) for s_, e in zip(seen, expect)), 1e-15)
+        # every substep starts from the previous converged state: a repeated ramp value is already the solution
+        for k_ in range(1, len(seen)):
+            if expect[k_][2] == expect[k_ - 1][2]:
+                rec.require("repeated-value-converges-at-once", seen[k_][3] == 1 and seen[k_][4] <= 1e-7, {"iterations": seen[k_][3], "xnorm": seen[k_][4], "x0": case["x0"]})
+        if x0 is not None and not stop:
+            rec.close("x0-holds-the-final-state", float(np.abs(x0[0].values - body.field[0].values).max()), 0.0)
+            rec.close("x0-carries-the-last-ramp-value", abs(float(x0[0].values[bounds["move"].points[0], 0]) - expect[-1][2]), 1e-15)
+    if x0 is not None:
+        rec.label("separate-x0")
     if kind == "curve" and len(seen) == len(expect) and seen:
         xs = np.array([np.asarray(x)[0] for x in job.x])
         rec.close("job.x=ramp-values", float(np.abs(xs - np.array([e[2] for e in expect])).max()), 1e-15)
